@@ -127,6 +127,13 @@ pub struct Model {
     pub expected: Vec<Expect>,
     pub master_alive: bool,
     pub next_sub_guess: u32,
+    /// the scenario has learned (from a probe execution) which subscription identifier the next
+    /// SUBSCRIBE processed will carry: `next_sub_guess` is exact for it (one-shot)
+    pub sub_len_exact: bool,
+    /// operations the implementation completed with MaximumPacketSizeExceeded since the last
+    /// comparison - consulted only where the specification leaves the outcome open (a SUBSCRIBE
+    /// whose length depends on the 1-4 byte identifier the library is free to choose)
+    pub observed_size_refusals: BTreeSet<usize>,
     /// sub ids seen so far (freshness)
     pub seen_sub_ids: BTreeSet<u32>,
     pub hits: Vec<&'static str>,
@@ -183,6 +190,8 @@ impl Model {
             expected: vec![],
             master_alive: true,
             next_sub_guess: 1,
+            sub_len_exact: false,
+            observed_size_refusals: BTreeSet::new(),
             seen_sub_ids: BTreeSet::new(),
             hits: vec![],
             check_wire: true,
@@ -578,6 +587,13 @@ impl Model {
         encode_client(&p.expect("harness: invalid request reached the queue")).len()
     }
 
+    fn subscribe_len(&self, op: usize, sub_id: u32) -> usize {
+        match &self.ops[op].spec {
+            OpSpec::Subscribe(s) => encode_client(&s.expected(1, sub_id).expect("harness: invalid subscribe")).len(),
+            _ => unreachable!(),
+        }
+    }
+
     fn complete(&mut self, op: usize, res: ResPat) {
         self.ops[op].st = St::Completing(res);
         if self.ops[op].alive {
@@ -602,7 +618,28 @@ impl Model {
         };
         let len = self.request_len(op, pubrel);
         if let Some(mx) = self.m {
-            if len as u64 > mx as u64 {
+            let mut refused = len as u64 > mx as u64;
+            if !pubrel && matches!(self.ops[op].spec, OpSpec::Subscribe(_)) {
+                if self.sub_len_exact {
+                    self.sub_len_exact = false;
+                } else {
+                    // The packet carries a subscription identifier of the library's choosing, 1-4
+                    // bytes long on the wire. Outside that window the outcome is prescribed; inside
+                    // it both are legitimate and the implementation's answer is followed (a packet
+                    // that is written is still measured against M when it appears on the wire).
+                    let lo = self.subscribe_len(op, 1) as u64;
+                    let hi = self.subscribe_len(op, 268_435_455) as u64;
+                    refused = if lo > mx as u64 {
+                        true
+                    } else if hi <= mx as u64 {
+                        false
+                    } else {
+                        self.hit("subscribe-length-open");
+                        self.observed_size_refusals.contains(&op)
+                    };
+                }
+            }
+            if refused {
                 self.complete(
                     op,
                     ResPat::Exact("Err:MaximumPacketSizeExceeded".into()),
@@ -1113,6 +1150,21 @@ impl Model {
                             got
                         ),
                     });
+                }
+                // C12: nothing longer than the announced Maximum Packet Size is ever written
+                if let Some(mx) = self.m {
+                    let l = encode_client(got).len();
+                    if l as u64 > mx as u64 {
+                        return Err(Mismatch {
+                            rule: format!("wire-oversized:{}", want.kind()),
+                            detail: format!(
+                                "request {} was written as a packet of {} bytes although the CONNACK announced Maximum Packet Size {}",
+                                spec.brief(),
+                                l,
+                                mx
+                            ),
+                        });
+                    }
                 }
                 // identifiers assigned by the library: non-zero (decoder), unique among outstanding
                 if let Some(pid) = gpid {
